@@ -1880,7 +1880,7 @@ class C13(Check):
         import casadi as ca
         n = 150 if self.tier == 'quick' else 1500
         maxops = 9 if self.tier == 'quick' else 25
-        prof = {'methods': [('ms', 'rk'), ('dc', 'rk'), ('ss', 'rk'), ('ms', 'euler')], 'grids': ['uniform', 'geometric'], 'horizon': ['num', 'freeT'],
+        prof = {'methods': [('ms', 'rk'), ('dc', 'rk'), ('ss', 'rk'), ('ms', 'euler')], 'grids': ['uniform', 'geometric'], 'horizon': ['num', 'freeT', 'param'],
                 'obj_kinds': ['at_tf', 'integral'], 'ncons': (0, 2), 'features': {'p': 1.0, 'pc': 0.5, 'qstate': 0.0},
                 'Ns': [2, 3], 'Ms': [1, 2], 'degrees': [1, 2], 'nxs': [1, 2], 'nus': [1]}
         # dedicated histories first (each a known-delicate order), then random ones
@@ -1891,13 +1891,16 @@ class C13(Check):
             ['value', 'subject_to', 'value'],
             ['solve', 'set_value', 'solve'],
             ['value', 'method', 'set_initial:expr', 'set_T'],
+            ['set_initial:expr', 'value', 'set_value:horizon'],   # a horizon given by a parameter, replaced after a transcription
+            ['set_initial:expr', 'solve', 'set_value:horizon', 'solve'],
         ]
         nplanned = len(PLANNED) * (2 if self.tier == 'quick' else 8)
         for case_i in range(n + nplanned):
             planned = list(PLANNED[case_i % len(PLANNED)]) if case_i < nplanned else []
             # a new horizon guess shows in the starting point through guesses written in ocp.t: not under single shooting (only X[0] is a
             # decision variable there)
-            desc = G.gen_case(self.rng, dict(prof, horizon=['freeT'], methods=[('ms', 'rk'), ('dc', 'rk'), ('ms', 'euler')]) if planned and 'set_T' in planned else prof)
+            desc = G.gen_case(self.rng, dict(prof, horizon=['freeT'], methods=[('ms', 'rk'), ('dc', 'rk'), ('ms', 'euler')]) if planned and 'set_T' in planned else
+                              dict(prof, horizon=['param'], methods=[('ms', 'rk'), ('dc', 'rk'), ('ms', 'euler')]) if planned and 'set_value:horizon' in planned else prof)
             desc['param_values'] = {}
             try:
                 bA = B.build(desc, transcribe=False)
@@ -1917,6 +1920,9 @@ class C13(Check):
             for step in range(nops):
                 op = planned[step] if step < len(planned) else self.rng.choice(self.OPS)
                 force_expr = op == 'set_initial:expr'
+                force_hz = op == 'set_value:horizon'
+                if force_hz:
+                    op = 'set_value'
                 if force_expr:
                     op = 'set_initial'
                 if op == 'set_value' and not (bA.params[''] or bA.params['control']):
@@ -1926,9 +1932,15 @@ class C13(Check):
                         if op == 'set_value':
                             gk = self.rng.choice([g for g in ('', 'control') if bA.params[g]])
                             i = self.rng.randrange(len(bA.params[gk]))
+                            if force_hz and cur['T'][0] == 'p':
+                                gk = ''
+                                offs_ = sym_offsets(cur['params'][''])
+                                i = [j for j in range(len(offs_)) if offs_[j] == cur['T'][1]][0]
                             p = bA.params[gk][i]
                             cols = 1 if gk == '' else cur['method']['N']
                             val = ca.DM([[self.rng.randint(1, 12) / 4.0 for _c in range(cols)] for _r in range(p.numel())])
+                            if force_hz and (gk, i) in cur['param_values'] and float(cur['param_values'][(gk, i)]) == float(val):
+                                val = val + 0.75
                             ocp.set_value(p, val)
                             cur['param_values'][(gk, i)] = val
                             ops.append(('set_value', gk, i))
